@@ -196,7 +196,7 @@ func (e *apiEnv) server() (string, regattapb.KVClient) {
 }
 
 func (e *apiEnv) vlen() int {
-	if e.r.Intn(40) == 0 {
+	if e.r.Intn(14) == 0 {
 		return []int{2 * 1024 * 1024, 2*1024*1024 + 1}[e.r.Intn(2)]
 	}
 	return e.pick(vlens)
@@ -259,6 +259,13 @@ func (e *apiEnv) genPut() {
 		rq.Key = kOf(e.pick([]int{0, 1025, 3000}))
 	}
 	vl := e.vlen()
+	if vl > 100000 && e.r.Intn(3) > 0 {
+		// the size limit is only reached by a request that passes every earlier check
+		rq.Table, rq.Key = []byte("t1"), []byte("big")
+		if s == "F" {
+			rq.Key = kOf(1025)
+		}
+	}
 	rq.Value = bytes.Repeat([]byte("v"), vl)
 	before := e.digest()
 	ctx, cancel := ctxT()
